@@ -282,6 +282,8 @@ def generate(run_seed):
     if wrng.random() < 0.2:
         run["warmup"] = wrng.choice(["-r", "flat"])
         run["warmup_keeps"] = wrng.random() < 0.5
+        # the earlier run went where the judged run goes and its result was thrown away
+        run["warmup_same_place"] = wrng.random() < 0.5
     if tool == "formatconverter":
         run["target"] = rng.choice(FC_TARGETS)
         run["api"] = rng.choice(["convert", "convert_dir"])
@@ -390,7 +392,22 @@ def run_case(case):
                     wmod.main((["-r"] if run["warmup"] == "-r" else []) + ["-o", warm, indir])
                 else:
                     from odml.tools.converters.format_converter import FormatConverter as WFC
-                    WFC.convert_dir(indir, warm, run["warmup"] == "-r", run["target"])
+                    if run.get("warmup_same_place"):
+                        # same call as the judged one; what it creates is removed afterwards
+                        w_before = fsbox.snapshot(box)
+                        try:
+                            WFC.convert_dir(indir, given if run["out"] == "given" else None,
+                                            run["recursive"], run["target"])
+                        finally:
+                            w_created, _, _ = fsbox.diff(w_before, fsbox.snapshot(box))
+                            for rel in sorted(w_created, key=len, reverse=True):
+                                pth = os.path.join(box, rel)
+                                if os.path.isdir(pth) and not os.path.islink(pth):
+                                    shutil.rmtree(pth, ignore_errors=True)
+                                elif os.path.lexists(pth):
+                                    os.remove(pth)
+                    else:
+                        WFC.convert_dir(indir, warm, run["warmup"] == "-r", run["target"])
             except (SystemExit, Exception):
                 pass
             finally:
